@@ -51,6 +51,8 @@ func runC16(c *Ctx) {
 	c.rule("index-provenance", "every string/slice index or slice expression in parse and caseconversion uses a range key of the same operand (plus the width of the rune just examined), a constant guarded by a length test, or an offset that was compared with len()", 10)
 	c.rule("valid-on-success", "the (reflect.Value, error) functions of the parse package never return the zero Value with a nil error: a path on which nothing was boxed (a kind routed to a parser but missing from the boxing switch) must be infeasible for every reflect.Kind", 3)
 	c.rule("overflow-after-convertible", "the flag source calls its reflect-Overflow helper only after value.Type().ConvertibleTo(T) succeeded for the very type T the target was allocated with (reflect Overflow* panics on receivers of other kind classes)", 1)
+	c.rule("addr-guard", "every reflect.Value.Addr in the decoders, manglers, parsers and wrappers has a receiver that is addressable by construction (reflect.New(T).Elem(), a field or element of such, the successful result of a repository function that only returns such values) or under a CanAddr test", 6)
+	c.rule("anon-struct-only", "the anonymous-flatten mangler strips the pointer of an embedded field (Mangle) and rebuilds it through the NumField-calling helper (Unmangle) only under a test that the pointee is a struct; both directions agree", 3)
 	c.rule("map-results-made", "the map-returning functions of the parse package return, with a nil error, only make-built maps (the flag helpers assign into the parsed map on a later Set; a nil map would panic)", 3)
 	c.rule("loop-progress", "every loop that is not a range loop in parse, caseconversion, transform, helper, ptrify has a recognised progress argument (counted index, scanner advance, type/value descent, map iterator, shrinking string over non-empty constants, channel drain)", 8)
 
@@ -131,6 +133,8 @@ func runC16(c *Ctx) {
 	c16SetConvert(c, kc)
 	c16Index(c)
 	c16MapResultsMade(c)
+	c16AnonStructOnly(c, "anon-struct-only")
+	c16AddrGuard(c)
 	c16OverflowAfterConvertible(c)
 	c16ValidOnSuccess(c)
 	c16Loops(c)
